@@ -26,7 +26,9 @@ SPELL_M = ["m/{}", "./m/{}", "m/../m/{}", "m//{}", "m/{}"]
 def build(n, edges, mode, indir=(), partial=()):
     """edges: (src, dst, kind, spelling index); files in `indir` live in m/; files in `partial` are `_x.scss`"""
     letters = ["t", "a", "b", "c"][:n]
-    names = [("m/" if i in indir else "") + ("_" if i in partial and i > 0 else "") + letters[i] + ".scss" for i in range(n)]
+    leaf_css = {i for i in range(1, n) if not any(s == i for (s, _, _, _) in edges) and (i + len(edges)) % 4 == 0}
+    names = [("m/" if i in indir else "") + ("_" if i in partial and i > 0 else "") + letters[i]
+             + (".css" if i in leaf_css else ".scss") for i in range(n)]
     bodies = [[["emit", i]] for i in range(n)]
     for (s, d, k, sp) in edges:
         if s in indir:
